@@ -725,6 +725,7 @@ class NP:
                                                   z3.And(fl(a_, b_) >= 0, fl(a_, b_) < to_z3(AB), uq(fl(a_, b_)) == a_, ur(fl(a_, b_)) == b_)),
                              patterns=[fl(a_, b_)]))
         reg[key] = (uq, ur, fl, AB)
+        ctx.inst_terms2.append(lambda x, y: fl(x, y))
         ctx.ghost.setdefault('merged_by_len', {})[z3.simplify(to_z3(AB)).sexpr()] = (A, B, uq, ur, fl)
         return reg[key]
 
